@@ -1,7 +1,6 @@
 package main
 
 import (
-	"fmt"
 	"go/ast"
 	"go/token"
 	"go/types"
@@ -104,227 +103,6 @@ func (c *Ctx) reporterInvokePred() Pred {
 			return false
 		}
 		return names[n.Obj().Name()]
-	}
-}
-
-// checkScopePassCoverage: in scope.report / scope.cachedReport the loop over one metric kind
-// ranges over the whole field, cannot leave early, and calls that element's delivery function
-// exactly once per element, unconditionally (C01 O7 / C02 O5).
-func (c *Ctx) checkScopePassCoverage(rule, mapField, sliceField, elemType string) {
-	info := c.pkg("").TypesInfo
-	elem := c.named("", elemType)
-	if elem == nil {
-		c.missing(rule, "type tally."+elemType)
-		return
-	}
-	lift := c.newLifter(c.reporterInvokePred(), 3)
-	for _, pass := range []struct{ fn, field string }{{"report", mapField}, {"cachedReport", sliceField}} {
-		key := "scope." + pass.fn + "/" + pass.field
-		fn := c.fn("", "scope", pass.fn)
-		fld := c.field("", "scope", pass.field)
-		if fn == nil || fld == nil {
-			c.missing(rule, "tally.scope."+pass.fn+" / field scope."+pass.field)
-			continue
-		}
-		c.sawFunc(c.fnKey(fn))
-		decl := c.funcDecl(fn)
-		if decl == nil {
-			c.undecided(rule, key, fn.Pos(), "no syntax for function")
-			continue
-		}
-		var loops []*ast.RangeStmt
-		var otherUse token.Pos
-		ast.Inspect(decl.Body, func(n ast.Node) bool {
-			switch x := n.(type) {
-			case *ast.RangeStmt:
-				if selField(info, x.X) == fld {
-					loops = append(loops, x)
-				} else {
-					// a range over a sub-slice / derived expression of the field
-					ast.Inspect(x.X, func(m ast.Node) bool {
-						if e, ok := m.(ast.Expr); ok && selField(info, e) == fld {
-							otherUse = x.Pos()
-						}
-						return true
-					})
-				}
-			case *ast.ForStmt:
-				ast.Inspect(x, func(m ast.Node) bool {
-					if e, ok := m.(ast.Expr); ok && selField(info, e) == fld && otherUse == token.NoPos {
-						otherUse = x.Pos()
-					}
-					return true
-				})
-			}
-			return true
-		})
-		if len(loops) != 1 {
-			msg := fmt.Sprintf("expected exactly one `range s.%s` over the whole field in %s, found %d", pass.field, pass.fn, len(loops))
-			if otherUse != token.NoPos {
-				msg += " (the field is iterated through a derived expression or an index loop; only a range over the field itself is known to visit every element once)"
-				c.bad(rule, key, otherUse, msg)
-			} else {
-				c.bad(rule, key, fn.Pos(), msg+": metrics of this kind are never (or repeatedly) reported by this pass")
-			}
-			continue
-		}
-		loop := loops[0]
-		if pos, esc := hasLoopEscape(loop.Body); esc {
-			c.bad(rule, key, pos, "the loop over "+pass.field+" can be left or cut short (break/continue/return): some metrics are skipped by the pass")
-			continue
-		}
-		// value variable of the range
-		var valObj types.Object
-		if id, ok := loop.Value.(*ast.Ident); ok && id.Name != "_" {
-			valObj = info.Defs[id]
-		}
-		if valObj == nil {
-			c.bad(rule, key, loop.Pos(), "the loop does not bind the element (range value) it should report")
-			continue
-		}
-		// top-level statements of the body that call a delivery method on the element
-		n, conditional := 0, 0
-		var badPos token.Pos
-		ast.Inspect(loop.Body, func(nd ast.Node) bool {
-			call, ok := nd.(*ast.CallExpr)
-			if !ok {
-				return true
-			}
-			se, ok := call.Fun.(*ast.SelectorExpr)
-			if !ok {
-				return true
-			}
-			id, ok := ast.Unparen(se.X).(*ast.Ident)
-			if !ok || info.Uses[id] != valObj {
-				return true
-			}
-			sel := info.Selections[se]
-			if sel == nil || sel.Kind() != types.MethodVal {
-				return true
-			}
-			mfn := c.SSA.FuncValue(sel.Obj().(*types.Func))
-			if mfn == nil || !lift.fnMay(mfn, 3) {
-				return true
-			}
-			n++
-			// must be a direct statement of the loop body
-			direct := false
-			for _, st := range loop.Body.List {
-				if es, ok := st.(*ast.ExprStmt); ok && es.X == ast.Expr(call) {
-					direct = true
-				}
-			}
-			if !direct {
-				conditional++
-				badPos = call.Pos()
-			}
-			return true
-		})
-		switch {
-		case n == 0:
-			c.bad(rule, key, loop.Pos(), "the loop over "+pass.field+" does not call the element's delivery function: metrics of this kind are never reported by this pass")
-		case n > 1:
-			c.bad(rule, key, loop.Pos(), fmt.Sprintf("the loop over %s calls %d delivery functions per element (expected one)", pass.field, n))
-		case conditional > 0:
-			c.bad(rule, key, badPos, "the element's delivery call is conditional or nested: some metrics are skipped by the pass")
-		default:
-			c.ok(rule, key, loop.Pos(), "one unconditional delivery call per element, range over the whole field, no early exit")
-		}
-	}
-}
-
-// checkRegistryPassCoverage: the registry pass ranges over all shards and over every scope of a
-// shard and reports each visited scope unconditionally (direct statement of the inner loop body,
-// not preceded by anything that can skip it).
-func (c *Ctx) checkRegistryPassCoverage(rule, pass, reportMethod string) {
-	fn := c.fn("", "scopeRegistry", pass)
-	fSub, fS := c.field("", "scopeRegistry", "subscopes"), c.field("", "scopeBucket", "s")
-	rep := c.fn("", "scope", reportMethod)
-	if fn == nil || fSub == nil || fS == nil || rep == nil {
-		c.missing(rule, "tally.scopeRegistry."+pass+" / subscopes / scopeBucket.s / scope."+reportMethod)
-		return
-	}
-	key := c.fnKey(fn)
-	c.sawFunc(key)
-	decl := c.funcDecl(fn)
-	info := c.typesInfo(fn)
-	var outer, inner *ast.RangeStmt
-	for _, st := range decl.Body.List {
-		if rs, ok := st.(*ast.RangeStmt); ok && selField(info, rs.X) == fSub {
-			outer = rs
-		}
-	}
-	if outer == nil {
-		c.bad(rule, key, fn.Pos(), "the pass does not range over all registry shards (r.subscopes) at the top level of its body: scopes of some shards are never reported")
-		return
-	}
-	var outerVal types.Object
-	if id, ok := outer.Value.(*ast.Ident); ok {
-		outerVal = info.Defs[id]
-	}
-	for _, st := range outer.Body.List {
-		if rs, ok := st.(*ast.RangeStmt); ok && selField(info, rs.X) == fS {
-			if se, isSel := ast.Unparen(rs.X).(*ast.SelectorExpr); isSel {
-				if id, isId := ast.Unparen(se.X).(*ast.Ident); isId && outerVal != nil && info.Uses[id] == outerVal {
-					inner = rs
-				}
-			}
-		}
-	}
-	if inner == nil {
-		c.bad(rule, key, outer.Pos(), "inside the shard loop the pass does not range over every scope of the shard (bucket.s)")
-		return
-	}
-	// the outer loop must not be cut short
-	if pos, esc := hasLoopEscape(&ast.BlockStmt{List: nonRange(outer.Body.List)}); esc {
-		c.bad(rule, key, pos, "the shard loop can be left early: later shards are not reported")
-		return
-	}
-	var sObj types.Object
-	if id, ok := inner.Value.(*ast.Ident); ok {
-		sObj = info.Defs[id]
-	}
-	// find the report statement among the direct statements; nothing before it may skip it
-	found := false
-	for _, st := range inner.Body.List {
-		if es, ok := st.(*ast.ExprStmt); ok {
-			if call, isCall := es.X.(*ast.CallExpr); isCall {
-				if se, isSel := call.Fun.(*ast.SelectorExpr); isSel {
-					if id, isId := ast.Unparen(se.X).(*ast.Ident); isId && sObj != nil && info.Uses[id] == sObj {
-						if sel := info.Selections[se]; sel != nil && c.SSA.FuncValue(sel.Obj().(*types.Func)) == rep {
-							found = true
-							break
-						}
-					}
-				}
-			}
-		}
-		// statements before the report: must not be able to leave the iteration
-		if pos, esc := hasLoopEscape(&ast.BlockStmt{List: []ast.Stmt{st}}); esc {
-			c.bad(rule, key, pos, "a scope can be skipped (continue/break/return) before it is reported: what it recorded is not delivered by this pass")
-			return
-		}
-	}
-	if !found {
-		c.bad(rule, key, inner.Pos(), "the visited scope's "+reportMethod+" is not called as an unconditional statement of the per-scope loop")
-		return
-	}
-	// after the report the iteration may remove the scope but must not leave the loop
-	for _, st := range inner.Body.List {
-		ast.Inspect(st, func(n ast.Node) bool {
-			if b, ok := n.(*ast.BranchStmt); ok && (b.Tok == token.BREAK || b.Tok == token.GOTO) {
-				c.bad(rule, key, b.Pos(), "the per-scope loop can be left early: later scopes of the shard are not reported")
-				found = false
-			}
-			if r, ok := n.(*ast.ReturnStmt); ok {
-				c.bad(rule, key, r.Pos(), "the pass returns from inside the per-scope loop")
-				found = false
-			}
-			return true
-		})
-	}
-	if found {
-		c.ok(rule, key, inner.Pos(), "all shards, all scopes of a shard, each reported unconditionally")
 	}
 }
 
